@@ -686,6 +686,44 @@ fn parse_blocks(src: &str) -> Result<(Option<syn::ItemTrait>, Vec<syn::ItemImpl>
     Ok((body.0, body.1))
 }
 
+/// A trait definition without its items: parameters (with bounds and defaults) and where-clause
+fn ser_trait_header(trait_: &syn::ItemTrait) -> R {
+    let params = trait_
+        .generics
+        .params
+        .iter()
+        .map(|param| -> R {
+            Ok(match param {
+                syn::GenericParam::Lifetime(x) => node(
+                    "GPLifetime",
+                    &x.lifetime.ident.to_string(),
+                    x.bounds.iter().map(ser_lifetime).collect::<Result<Vec<_>, _>>()?,
+                ),
+                syn::GenericParam::Type(x) => {
+                    let mut kids = vec![ser_opt(x.default.as_ref(), ser_type)?];
+                    for bound in &x.bounds {
+                        kids.push(ser_bound(bound)?);
+                    }
+                    node("GPTypeD", &x.ident.to_string(), kids)
+                }
+                syn::GenericParam::Const(x) => node(
+                    "GPConstD",
+                    &x.ident.to_string(),
+                    vec![ser_type(&x.ty)?, ser_opt(x.default.as_ref(), ser_expr)?],
+                ),
+            })
+        })
+        .collect::<Result<Vec<_>, _>>()?;
+    let mut generics = trait_.generics.clone();
+    generics.params = syn::punctuated::Punctuated::new();
+    let (_, preds) = ser_generics(&generics)?;
+    Ok(node(
+        "Trait",
+        &format!("{};{}", trait_.ident, trait_.unsafety.is_some()),
+        vec![node("Generics", "", params), preds],
+    ))
+}
+
 fn ser_grouping(groups: &ImplGroups, canonical: &[syn::ItemImpl]) -> R {
     let mut out = Vec::new();
     for (id, group) in &groups.impl_groups {
@@ -954,45 +992,7 @@ fn respond(line: &str) -> R {
             let grouping = ser_grouping(&groups, &canonical)?;
             let trait_ser = match &trait_ {
                 None => leaf("NoTrait", ""),
-                Some(trait_) => {
-                    let params = trait_
-                        .generics
-                        .params
-                        .iter()
-                        .map(|param| -> R {
-                            Ok(match param {
-                                syn::GenericParam::Lifetime(x) => node(
-                                    "GPLifetime",
-                                    &x.lifetime.ident.to_string(),
-                                    x.bounds.iter().map(ser_lifetime).collect::<Result<Vec<_>, _>>()?,
-                                ),
-                                syn::GenericParam::Type(x) => {
-                                    let mut kids = vec![ser_opt(x.default.as_ref(), ser_type)?];
-                                    for bound in &x.bounds {
-                                        kids.push(ser_bound(bound)?);
-                                    }
-                                    node("GPTypeD", &x.ident.to_string(), kids)
-                                }
-                                syn::GenericParam::Const(x) => node(
-                                    "GPConstD",
-                                    &x.ident.to_string(),
-                                    vec![ser_type(&x.ty)?, ser_opt(x.default.as_ref(), ser_expr)?],
-                                ),
-                            })
-                        })
-                        .collect::<Result<Vec<_>, _>>()?;
-                    let (_, preds) = ser_generics(&trait_.generics).or_else(|_| -> Result<(String, String), String> {
-                        // parameters with defaults are not serializable by ser_generics: only the where-clause is needed
-                        let mut generics = trait_.generics.clone();
-                        generics.params = syn::punctuated::Punctuated::new();
-                        ser_generics(&generics)
-                    })?;
-                    node(
-                        "Trait",
-                        &format!("{};{}", trait_.ident, trait_.unsafety.is_some()),
-                        vec![node("Generics", "", params), preds],
-                    )
-                }
+                Some(trait_) => ser_trait_header(trait_)?,
             };
             let main_trait = groups.item_trait_;
             let mut mains = Vec::new();
@@ -1001,7 +1001,18 @@ fn respond(line: &str) -> R {
                 main.items.clear();
                 mains.push(ser_item_impl(&main)?);
             }
-            Ok(join(vec![trait_ser, blocks_ser, grouping, node("MainImpls", "", mains)]))
+            let mut helpers = Vec::new();
+            for (idx, group) in groups.impl_groups.values().enumerate() {
+                let helper = helper_trait::generate(main_trait.as_ref(), idx, group).ok_or("no helper trait")?;
+                helpers.push(ser_trait_header(&helper)?);
+            }
+            Ok(join(vec![
+                trait_ser,
+                blocks_ser,
+                grouping,
+                node("MainImpls", "", mains),
+                node("HelperTraits", "", helpers),
+            ]))
         }
         // serialize a world (ground impls of dispatch traits) and ground queries
         ["world", world, probes] => {
